@@ -30,6 +30,9 @@ pub enum Case {
     Quad { method: Meth, deg: usize, coef: Vec<f64>, x0: f64, len: f64, back: bool },
     /// accepted steps as a function of the tolerance
     Scaling { method: Meth, a: f64, b: f64, theta: f64, x0: f64, back: bool },
+    /// one Radau step of size h = hr/rate on a nonlinear problem, Newton iterated to 10^-ntol_exp: the new state is the
+    /// solution of the three-stage Radau IIA collocation equations (solved independently by the harness)
+    Colloc { prob: ProbSpec, x0: f64, back: bool, hr: f64, analytic_jac: bool, ntol_exp: i32 },
     /// a callback answering XOut (dense output on demand) leaves every accepted step the method's step from (x, y)
     XOut(crate::xoutrel::XCase),
 }
@@ -244,6 +247,155 @@ fn one_step(m: Meth, prob: &Prob, x0: f64, h: f64, analytic_jac: bool) -> Option
         return None;
     }
     Some(so.recs[1].y.clone())
+}
+
+/// dense Gaussian elimination with partial pivoting, in place; returns false on a zero pivot
+fn gauss_solve(n: usize, a: &mut [f64], b: &mut [f64]) -> bool {
+    for k in 0..n {
+        let mut m = k;
+        for i in k + 1..n {
+            if a[i * n + k].abs() > a[m * n + k].abs() {
+                m = i;
+            }
+        }
+        if a[m * n + k] == 0.0 {
+            return false;
+        }
+        if m != k {
+            for j in 0..n {
+                a.swap(m * n + j, k * n + j);
+            }
+            b.swap(m, k);
+        }
+        for i in k + 1..n {
+            let l = a[i * n + k] / a[k * n + k];
+            if l != 0.0 {
+                for j in k..n {
+                    a[i * n + j] -= l * a[k * n + j];
+                }
+                b[i] -= l * b[k];
+            }
+        }
+    }
+    for k in (0..n).rev() {
+        let mut v = b[k];
+        for j in k + 1..n {
+            v -= a[k * n + j] * b[j];
+        }
+        b[k] = v / a[k * n + k];
+    }
+    true
+}
+
+/// Solution of the 3-stage Radau IIA collocation equations Z_i = h sum_j a_ij f(x0 + c_j h, y0 + Z_j) by a full Newton
+/// iteration (difference-quotient Jacobian of the whole 3n system, iterated to rounding level); returns y0 + Z_3.
+fn radau_collocation_step(prob: &Prob, x0: f64, y0: &[f64], h: f64) -> Option<Vec<f64>> {
+    let n = y0.len();
+    let s6 = 6f64.sqrt();
+    let c = [(4.0 - s6) / 10.0, (4.0 + s6) / 10.0, 1.0];
+    let a = [
+        [(88.0 - 7.0 * s6) / 360.0, (296.0 - 169.0 * s6) / 1800.0, (-2.0 + 3.0 * s6) / 225.0],
+        [(296.0 + 169.0 * s6) / 1800.0, (88.0 + 7.0 * s6) / 360.0, (-2.0 - 3.0 * s6) / 225.0],
+        [(16.0 - s6) / 36.0, (16.0 + s6) / 36.0, 1.0 / 9.0],
+    ];
+    let g = |z: &[f64], out: &mut [f64]| {
+        let mut fs = vec![vec![0.0; n]; 3];
+        let mut yy = vec![0.0; n];
+        for j in 0..3 {
+            for i in 0..n {
+                yy[i] = y0[i] + z[j * n + i];
+            }
+            crate::instr::Rhs::f(prob, x0 + c[j] * h, &yy, &mut fs[j]);
+        }
+        for i3 in 0..3 {
+            for i in 0..n {
+                let mut v = z[i3 * n + i];
+                for j in 0..3 {
+                    v -= h * a[i3][j] * fs[j][i];
+                }
+                out[i3 * n + i] = v;
+            }
+        }
+    };
+    let m = 3 * n;
+    let mut z = vec![0.0; m];
+    let mut r = vec![0.0; m];
+    let ysc = 1.0 + inf_norm(y0);
+    for _it in 0..60 {
+        g(&z, &mut r);
+        // difference-quotient Jacobian (central)
+        let mut jac = vec![0.0; m * m];
+        let mut rp = vec![0.0; m];
+        let mut rm = vec![0.0; m];
+        for q in 0..m {
+            let d = 1e-6 * ysc;
+            let zq = z[q];
+            z[q] = zq + d;
+            g(&z, &mut rp);
+            z[q] = zq - d;
+            g(&z, &mut rm);
+            z[q] = zq;
+            for p in 0..m {
+                jac[p * m + q] = (rp[p] - rm[p]) / (2.0 * d);
+            }
+        }
+        let mut dz: Vec<f64> = r.iter().map(|v| -v).collect();
+        if !gauss_solve(m, &mut jac, &mut dz) {
+            return None;
+        }
+        for q in 0..m {
+            z[q] += dz[q];
+        }
+        if !z.iter().all(|v| v.is_finite()) {
+            return None;
+        }
+        if inf_norm(&dz) <= 4.0 * f64::EPSILON * ysc {
+            g(&z, &mut r);
+            if inf_norm(&r) <= 64.0 * f64::EPSILON * ysc {
+                return Some((0..n).map(|i| y0[i] + z[2 * n + i]).collect());
+            }
+        }
+    }
+    None
+}
+
+fn check_colloc(spec: &ProbSpec, x0: f64, back: bool, hr: f64, analytic_jac: bool, ntol_exp: i32) -> Outcome {
+    let d = if back { -1.0 } else { 1.0 };
+    let prob = Prob::new(spec, x0, x0 + d);
+    let rate = prob.rate_t().max(1e-3);
+    let h = d * (hr / rate).min(0.25);
+    let y0 = prob.exact(x0);
+    let none: Vec<EvSpec> = vec![];
+    let mut instr = Instr::new(&prob, &none);
+    instr.use_jac = analytic_jac;
+    instr.dir = d;
+    let ntol = 10f64.powi(-ntol_exp);
+    let lo = LowOpts { first_step: Some(h), newton_tol: Some(ntol), newton_maxiter: Some(40), identity_mass: true, ..Default::default() };
+    let mut so = RecSolOut::new(vec![]);
+    let big = Tol::S(1e3);
+    let r = match guarded(|| solve_low(Meth::RADAU, &instr, x0, x0 + h, &y0, &big, &big, &lo, &mut so)) {
+        Ok(Ok(r)) => r,
+        _ => return Outcome::triv("radau-colloc:run-failed"),
+    };
+    if r.status != Status::Success || so.recs.len() != 2 || r.steps.rejected != 0 {
+        return Outcome::triv("radau-colloc:step-not-single");
+    }
+    let y1 = so.recs[1].y.clone();
+    let yref = match radau_collocation_step(&prob, x0, &y0, h) {
+        Some(v) => v,
+        None => return Outcome::triv("radau-colloc:reference-not-converged"),
+    };
+    // the solver stops its simplified Newton iteration when the estimated remaining increment, in the norm scaled by
+    // atol + rtol|y| = 1e3 (1 + |y|), is below newton_tol <= 1e-17: 1e-14 (1 + |y|) absolute; allow 1e-11
+    let ysc = 1.0 + inf_norm(&y0).max(inf_norm(&y1));
+    let tol = 1e-11 * ysc;
+    let e = max_abs_diff(&y1, &yref);
+    let ex = prob.exact(x0 + h);
+    let local = max_abs_diff(&yref, &ex);
+    if !(e <= tol) {
+        return Outcome::viol(format!("RADAU: one step h={:e} from x0={} with newton_tol={:e} ends {:e} from the solution of the Radau IIA collocation equations (allowed {:e}; the collocation solution itself is {:e} from the exact solution): the step taken is not the Radau IIA step (jacobian {})", h, x0, ntol, e, tol, local, if analytic_jac { "analytic" } else { "finite differences" }));
+    }
+    Outcome::pass("RADAU:collocation", spec.blocks.iter().any(|b| !matches!(b, Block::Real { .. } | Block::Pair { .. } | Block::Const { .. })), json!({"dist_to_collocation": e, "collocation_local_error": local}))
 }
 
 fn check_slope(spec: &ProbSpec, x0: f64, back: bool, m: Meth, analytic_jac: bool) -> Outcome {
@@ -566,6 +718,7 @@ pub fn check(c: &Case) -> Outcome {
         Case::Quad { method, deg, coef, x0, len, back } => check_quad(*method, *deg, coef, *x0, *len, *back),
         Case::Scaling { method, a, b, theta, x0, back } => check_scaling(*method, *a, *b, *theta, *x0, *back),
         Case::XOut(x) => crate::xoutrel::check(x, crate::xoutrel::Aspect::Steps),
+        Case::Colloc { prob, x0, back, hr, analytic_jac, ntol_exp } => check_colloc(prob, *x0, *back, *hr, *analytic_jac, *ntol_exp),
     }
 }
 
@@ -584,6 +737,13 @@ pub fn strategy() -> BoxedStrategy<Case> {
             prob.warp.k = 0;
             let analytic_jac = analytic_jac || method == Meth::RADAU;
             Case::Slope { prob, x0, back, method, analytic_jac }
+        }),
+        // Radau on NONLINEAR problems (logistic, tan, reciprocal, cubic, limit cycle; non-autonomous through the time warp):
+        // one step against the harness's own solution of the collocation equations.  This is where the simplified
+        // Newton iteration matters (on linear problems one iteration is exact).
+        3 => (prob_spec(3, 0.5, 3.0), fr(-2.0, 2.0), any::<bool>(), fr(0.02, 0.35), any::<bool>(), 17i32..=20).prop_map(|(mut prob, x0, back, hr, analytic_jac, ntol_exp)| {
+            if prob.blocks.len() > 2 { prob.blocks.truncate(2); }
+            Case::Colloc { prob, x0, back, hr, analytic_jac, ntol_exp }
         }),
         3 => (fr(-20.0, 1.0), fr(-20.0, 20.0), fr(0.05, 1.0), fr(-5.0, 5.0), any::<bool>(), fr(0.3, 2.0), fr(-2.0, 2.0)).prop_map(|(re, im, h, x0, back, u, v)| {
             // |z| <= 20
@@ -630,7 +790,7 @@ pub fn run(ctx: &Ctx, known: &[Known]) -> Report {
     }
     Report {
         id: "C02".into(),
-        rule: "six kinds of cases: (0) low-level runs whose SolOut callback answers ControlFlag::XOut at generated callbacks (or prints equidistantly), dense_output default/true/false: every accepted step (xold, x, y) is bit-identical to the run whose callback answers Continue, i.e. the step after an XOut answer is still the method's step from (x, y); (1) tableau extraction at generated (x0 = k/8, h = +-2^j) with all rooted-tree order conditions up to p (exhaustive over trees; also run once per method and sign of h as the exhaustive part), (2) local-error slope (three smallest usable of five refinements) of one step from exact data of an autonomous linear closed-form problem (RK4, RK23, DOPRI5, DOP853, Radau with fully converged Newton), (3) one Radau step on y'=lambda*y, z=h*lambda in |z|<=20 (complex via the 2x2 rotation-scaling system) against the (2,3) Pade approximant, and every accepted step of ordinary multi-step Radau runs on y'=lambda*y (analytic Jacobian: the simplified Newton iteration is exact, so steps after rejections, with re-used factors and the clipped last step must all be Radau IIA steps, to 1e-11), (4) pure quadrature y'=p'(t) of degree <= d^ (estimate must vanish: every step grows by exactly the maximal factor; a quarter of these start with a fast transient that forces rejections, after which the growth must resume) and d^+1 (tolerance limited), (5) accepted steps vs tolerance exponent within [0.8/q, 1.35/q]. Non-trivial = the sub-check produced a verdict from a usable measurement (>= 3 slope points, >= 4 steps, >= 5 tolerance points with >= 30 steps). Distinct = distinct canonical JSON.".into(),
+        rule: "seven kinds of cases: (0b) one Radau step on a nonlinear closed-form problem with newton_tol 1e-17..1e-20 against the harness's own Newton solution of the three-stage Radau IIA collocation equations (agreement to 1e-11 (1+|y|)); (0) low-level runs whose SolOut callback answers ControlFlag::XOut at generated callbacks (or prints equidistantly), dense_output default/true/false: every accepted step (xold, x, y) is bit-identical to the run whose callback answers Continue, i.e. the step after an XOut answer is still the method's step from (x, y); (1) tableau extraction at generated (x0 = k/8, h = +-2^j) with all rooted-tree order conditions up to p (exhaustive over trees; also run once per method and sign of h as the exhaustive part), (2) local-error slope (three smallest usable of five refinements) of one step from exact data of an autonomous linear closed-form problem (RK4, RK23, DOPRI5, DOP853, Radau with fully converged Newton), (3) one Radau step on y'=lambda*y, z=h*lambda in |z|<=20 (complex via the 2x2 rotation-scaling system) against the (2,3) Pade approximant, and every accepted step of ordinary multi-step Radau runs on y'=lambda*y (analytic Jacobian: the simplified Newton iteration is exact, so steps after rejections, with re-used factors and the clipped last step must all be Radau IIA steps, to 1e-11), (4) pure quadrature y'=p'(t) of degree <= d^ (estimate must vanish: every step grows by exactly the maximal factor; a quarter of these start with a fast transient that forces rejections, after which the growth must resume) and d^+1 (tolerance limited), (5) accepted steps vs tolerance exponent within [0.8/q, 1.35/q]. Non-trivial = the sub-check produced a verdict from a usable measurement (>= 3 slope points, >= 4 steps, >= 5 tolerance points with >= 30 steps). Distinct = distinct canonical JSON.".into(),
         assumptions: vec![
             "slope thresholds: RK4 4.5, RK23 3.5, DOPRI5 5.3, Radau 5.2, DOP853 7.5 (calibrated, see source); the decisive checks are the tree conditions (explicit methods) and the Pade approximant (Radau)".into(),
             "tree residual tolerance 2e-13, row sums 5e-14".into(),
